@@ -23,7 +23,7 @@ CLAIMED = {
             "Trusted: reference membership in harness/src/flat.rs, tolerance 1e-9 (SO3 1e-6).",
             "5/C04", "oxv"),
     "C05": ("proptest-generated planner cases over steps/radii from 1e-3 to 10 x extent vs. own and reference metric",
-            "Consecutive path states are measured with the space's own distance and with the independent reference distance; both must respect the planner's extension limit (step / max(step, radius) / connection radius).",
+            "Consecutive path states are measured with the space's own distance and with the independent reference distance; both must respect the planner's extension limit (step / max(step, radius) / connection radius, the largest value in effect since the last setup when the caller re-tunes the planner); a Python half plans Hypothesis scenarios through oxmpl_py (every planner x variant arm of the constructors) and measures the segments with the wrapped space.",
             "Trusted: reference metric, tolerances of DESIGN.md section 4.",
             "5/C05", "oxv"),
     "C09": ("exhaustive lattice of special states + proptest-generated triples vs. independent reference metric",
@@ -74,7 +74,7 @@ CLAIMED.update({
             "Trusted: reference model in harness/src/props/trees.rs; the planner's own metric (decided by C09) is used to determine 'nearest'.",
             "5/C16", "oxv"),
     "C17": ("same exploration restricted to RRT* + stepwise random runs: bit-exact cost bookkeeping, arg-min parent modulo rejected motions, rewiring exactly when strictly cheaper; differential RRT vs RRT* on the same seed",
-            "Per accepted RRT* iteration: cost(new) = cost(parent) + edge bit-exactly; no candidate cheaper than the chosen parent unless a motion query on that segment was rejected; neighbours strictly cheaper through the new node (and not blocked) are re-parented with the exact cost, everything else bit-identical, recorded costs never increase. 10 000 (quick) RRT-vs-RRT* pairs: same outcome, same end state, RRT* not longer.",
+            "Per accepted RRT* iteration: cost(new) = cost(parent) + edge bit-exactly; no candidate cheaper than the chosen parent unless a motion query on that segment was rejected; neighbours strictly cheaper through the new node (and not blocked) are re-parented with the exact cost, everything else bit-identical, recorded costs never increase. 10 000 (quick) RRT-vs-RRT* pairs: same outcome, same end state, RRT* not longer (also through the Python bindings, 600 scenarios); links made by choose-parent and rewiring must not cross an invalid stretch of the resolution's length.",
             "Trusted: reference model in harness/src/props/trees.rs. Where a rejected query from an overlapping collinear segment lies on the rewiring segment either outcome is accepted (stated in DESIGN.md).",
             "5/C17", "oxv"),
     "C18": ("bounded-exhaustive scripted sample sequences (length <= 4/5 over the alphabet, all worlds, three radii) + random roadmaps: construction replayed against the ordered validity log, reference multi-source BFS for every query",
